@@ -207,7 +207,11 @@ static void run_case(Case &c)
         int cnt = 0; API("opn2_getSongsCount", cnt = opn2_getSongsCount(d));
         if(cnt != nsongs) c.violation("oracle:C17:xmi:song-count", vfmt("opn2_getSongsCount %d, file has %d; %s", cnt, nsongs, ctx.c_str()));
         int sel = presel;
+        // the other song is selected either right away or after the first one has been played to its end
+        bool played_first = false;
+        if(later >= 0 && r.chance(0.5)) { play_all(d, cap); played_first = true; count("xmi_song_switches_after_the_end"); }
         if(later >= 0) { API("opn2_selectSongNum", opn2_selectSongNum(d, later)); sel = later; cap.clear(); }
+        (void)played_first;
         play_all(d, cap);
         const XmiSong &s = x.songs[(size_t)sel];
         std::vector<DEv> got;
